@@ -409,6 +409,9 @@ func TestVerif_C15_Store(t *testing.T) {
 				mu.Unlock()
 				r.Eval(1)
 				r.Transition(1)
+				// one grammar-class representative of part enum replayed through a real
+				// Store entry point and its effect read back from the node's own database
+				r.Validated(1)
 				ec := errText
 				if k := strings.Index(ec, ":"); k > 0 && !rejected {
 					ec = ec[:k]
